@@ -116,7 +116,10 @@ def main():
     shutil.copyfile(out + "/patch.diff", dst + "/patch.diff")
     for f in os.listdir(out):
         if f not in ("patch.diff", "meta.json"):
-            shutil.copyfile(os.path.join(out, f), os.path.join(dst, f))
+            if os.path.isdir(os.path.join(out, f)):
+                shutil.copytree(os.path.join(out, f), os.path.join(dst, f), dirs_exist_ok=True)
+            else:
+                shutil.copyfile(os.path.join(out, f), os.path.join(dst, f))
     meta["verified"] = report
     json.dump(meta, open(dst + "/meta.json", "w"), indent=1)
     return report
